@@ -6,11 +6,41 @@ from check import Result
 from vlib.shrink import ddmin
 
 META = {
-    'level_text': 'TODO',
-    'level_note': 'TODO',
-    'trusted': [],
-    'modelled_not_verified': [],
-    'assumptions': [],
+    'level_text': 'Proved for all inputs: framing_chunk_independent (+_bytes, framing_eq_unchunked) — the result of AsynConn.readline / '
+                  'readbytes and everything left unread depend only on the concatenation of the received chunks (any end-of-line '
+                  'sequence, any buffer, any two chunkings).  The transaction model (an acceptor of time-stamped event sequences: lock, '
+                  'sleeps, flush, send, recv, close, reconnect, callbacks, per caller program counters following io.py) carries the other '
+                  'clauses as full statements (`*_statement`, all accepted runs = all schedules); proved are their step-level parts '
+                  '(`*_partial`): a send is accepted only after everything that had arrived was drained; a sleeper continues only after '
+                  'its delay; the read loop leaves with a time-out only after an empty recv past the time-out; after a closed recv only '
+                  'closeConnection and the update is_connected=false are possible before anything else; an on-demand reconnect goes on '
+                  'only if the interval has passed since the recorded last attempt and every attempt is recorded; callbacks run one by '
+                  'one, each once.  state_visible_fails: the full state clause is FALSE for the code that exists (recorded finding).  '
+                  'Every clause is judged by its Lean monitor on every run of the real StringIO/BytesIO under the deterministic '
+                  'scheduler, and every run is replayed through the model.',
+    'level_note': 'Trusted: Lean kernel + axioms propext/Classical.choice/Quot.sound; the scripted device and FakeConn (lowest AsynConn layer: '
+                  'recv/send/flush_recv) replace sockets, select and kernel buffering; the induction from the step-level facts to whole runs '
+                  '(control-flow invariants) is NOT done in Lean — for whole runs the evidence is the monitors on sampled schedules.',
+    'trusted': [
+        'FakeConn.recv blocks at most AsynConn.timeout (1 s) and returns one device chunk at a time; flush_recv drains what has arrived (as AsynTcp)',
+        'no byte arrives between the end of flush_recv and the send (same virtual instant)',
+        'the virtual clock of vlib.sched (one tick per clock read); clock slack of 300 us per step in the time clauses',
+        'instrumentation from outside: lock proxy, time proxy of frappy.io, wrappers of check_connection/doPoll, parameter callback on is_connected',
+    ],
+    'modelled_not_verified': [
+        'sockets / serial lines / select (AsynTcp, AsynSerial)',
+        'checkHWIdent (identification), wait_before with an end-of-line inside a command (several sends per communicate)',
+        'write_is_connected from a client, the generic read wrapper of modulebase (only its late announce of is_connected is modelled)',
+        'the real poll thread (only polling_resumes is judged on it)',
+    ],
+    'assumptions': [
+        'reply_pairing: in the window of a command the device sends nothing but its answer to that command (a late reply that arrives after '
+        'the next send is indistinguishable from a reply and outside the statement)',
+        'fails_within_timeout: bound = max(send + timeout, last byte of the device in the window) + one recv period + delay + wait_before; a device '
+        'that keeps trickling bytes without completing a reply is not "silent" and extends the wait (AsynConn checks the clock only after an empty recv)',
+        'reconnect_rate_limited: attempts on behalf of communicate calls come >= pollinterval after the previous attempt of any origin; poll-driven '
+        'attempts follow the poll schedule (the stricter "any two attempts" is evaluated and reported in evidence notes only)',
+    ],
 }
 
 
@@ -488,7 +518,7 @@ def run(ctx):
             res.disagreements.append({'case': {'kind': 'frame', 'case': fc}, 'model': a, 'impl': impl})
         # chunk independence on the real code: one chunk holding everything gives the same result
         whole = impl_frame(fc['eol'], fc['buf'] + ''.join(fc['chunks']), [], fc['n'])
-        if impl['line'] is not None and '' not in fc['chunks'] and whole != impl:
+        if impl['line'] is not None and '' not in fc['chunks'] and whole != impl and not res.violations:
             res.violations.append({'sig': 'C16:framing_chunk_independent',
                                    'what': f'framing depends on the chunking: {fc} -> {impl}, unchunked -> {whole}',
                                    'case': {'kind': 'frame', 'case': fc}})
@@ -500,7 +530,7 @@ def run(ctx):
         s, out = run_case(case, policy)
         return s, out
 
-    nexplore = ctx.budget(60, 1500)
+    nexplore = ctx.budget(110, 2500)
     for ci, case in enumerate(catalogue()):
         n = 0
         for prefix, s, out in explore(lambda pol, case=case: one(case, pol), max_preemptions=2, max_runs=nexplore, rng=rng):
@@ -510,7 +540,7 @@ def run(ctx):
     for c in corpus:
         s, out = one(c['case'], ReplayThenDefault(c.get('choices') or []))
         runs.append((c['case'], [x[1] for x in s.choices], out))
-    for _ in range(ctx.budget(220, 6000)):
+    for _ in range(ctx.budget(380, 6000)):
         case = gen_case(rng)
         for _ in range(2):
             s, out = one(case, RandomPolicy(rng, rng.choice([0.1, 0.3, 0.6])))
